@@ -249,6 +249,53 @@ def choose_antichain(sites, picks):
     return chosen
 
 
+# ------------------------------------------------------------------------------------ one-shot iterables as input
+# "loader takes any iterable excluding str and Mapping": the sequences of the datum may arrive as one-shot iterators or
+# generators (a streaming parser, a map object).  Trails and input values stay what they are for the list of the same items.
+LAZY_HOWS = [None, None, None, "iter", "gen", "map"]
+
+
+def _one_shot(items, how):
+    if how == "iter":
+        return iter(items)
+    if how == "gen":
+        return (x for x in items)
+    return map(lambda x: x, items)
+
+
+def lazify(spec, data, how, plain_models, reg):  # noqa: PLR0911
+    """Copy of the datum in which every list that sits where a homogeneous iterable is expected is a one-shot iterable.
+    `reg` remembers the items behind every iterable made (an error may quote a container that holds a consumed iterator)."""
+    spec = tspec.strip(spec)
+    tag = spec[0]
+    if tag == "optional":
+        return None if data is None else lazify(spec[1], data, how, plain_models, reg)
+    if tag in ("list", "set", "frozenset", "vtuple", "deque", "abc") and isinstance(data, list):
+        inner = spec[2] if tag == "abc" else spec[1]
+        items = [lazify(inner, x, how, plain_models, reg) for x in data]
+        it = _one_shot(items, how)
+        reg[id(it)] = (it, items)
+        return it
+    if tag in ("dict", "defaultdict", "mapping", "mutablemapping") and isinstance(data, dict):
+        return {k: lazify(spec[2], v, how, plain_models, reg) for k, v in data.items()}
+    if tag == "tuple" and isinstance(data, list) and len(data) == len(spec[1]):
+        return [lazify(st_, x, how, plain_models, reg) for st_, x in zip(spec[1], data)]
+    if tag == "model" and plain_models and isinstance(data, dict):
+        ftypes = {f["n"]: f["t"] for f in spec[1]["fields"]}
+        return {k: (lazify(ftypes[k], v, how, plain_models, reg) if k in ftypes else v) for k, v in data.items()}
+    return data
+
+
+def delazify(o, reg):
+    if id(o) in reg and reg[id(o)][0] is o:
+        return [delazify(x, reg) for x in reg[id(o)][1]]
+    if isinstance(o, dict):
+        return {k: delazify(v, reg) for k, v in o.items()}
+    if isinstance(o, (list, tuple)):
+        return type(o)(delazify(x, reg) for x in o)
+    return o
+
+
 # ------------------------------------------------------------------------------------ case strategy / oracle
 @st.composite
 def st_case(draw):
@@ -257,7 +304,7 @@ def st_case(draw):
     layouts = draw(st_layouts(t)) if tspec.contains(t, "model") else {}
     npicks = draw(st.sampled_from([1, 2, 2, 3, 4, 6]))
     picks = [draw(st.one_of(st.integers(0, 6), st.integers(0, 10 ** 6))) for _ in range(npicks)]
-    return {"t": t, "v": v, "layouts": layouts, "picks": picks}
+    return {"t": t, "v": v, "layouts": layouts, "picks": picks, "lazy": draw(st.sampled_from(LAZY_HOWS))}
 
 
 @st.composite
@@ -283,6 +330,7 @@ def st_case_layout(draw):
     v = draw(tspec.st_value(t, min_size=1))
     npicks = draw(st.sampled_from([2, 2, 3, 4]))
     return {"t": t, "v": v, "layouts": {"M0": lay}, "picks": [draw(st.integers(0, 40)) for _ in range(npicks)],
+            "lazy": draw(st.sampled_from(LAZY_HOWS)),
             "prefer": draw(st.sampled_from([["missing_required", "missing_group"], ["missing_required", "missing_group"],
                                             ["missing_required", "missing_group", "wrong_type", "wrong_container"]]))}
 
@@ -395,7 +443,7 @@ def check_case(ctx: runner.Ctx, case):  # noqa: C901, PLR0912, PLR0915
     ctx.case([case], nontrivial,
              sample={"type": tspec.text(t), "layouts": layouts, "corrupted_datum": repr(datum)[:400],
                      "faults": [[s.kind, [repr(el) for el in s.expect[1]]] for s in chosen]},
-             labels=[f"faults:{min(len(chosen), 4)}", f"depth:{min(depth, 5)}", *[f"kind:{k}" for k in set(kinds)],
+             labels=[f"input:{case.get('lazy') or 'lists'}", f"faults:{min(len(chosen), 4)}", f"depth:{min(depth, 5)}", *[f"kind:{k}" for k in set(kinds)],
                      *(["model_layout"] if layouts else []), *[f"layout:{v['how']}" for v in layouts.values()]])
     recipe = build_recipe(layouts, e)
     head = f"type={tspec.text(t)} layouts={layouts} faults={[(s.kind, s.expect[1:]) for s in chosen]} datum={datum!r}"
@@ -403,7 +451,11 @@ def check_case(ctx: runner.Ctx, case):  # noqa: C901, PLR0912, PLR0915
         retort = Retort(recipe=recipe, strict_coercion=True, debug_trail=DEBUG[dbg])
         exc = None
         try:
-            retort.load(copy.deepcopy(datum), hint)
+            arg = copy.deepcopy(datum)
+            lazy_reg = {}
+            if case.get("lazy"):
+                arg = lazify(t, arg, case["lazy"], not layouts, lazy_reg)
+            retort.load(arg, hint)
         except BaseException as ex:  # noqa: BLE001
             exc = ex
         if exc is None:
@@ -450,7 +502,7 @@ def check_case(ctx: runner.Ctx, case):  # noqa: C901, PLR0912, PLR0915
                     ctx.violation("trail_not_followable", (type(leaf).__name__, exc_site(leaf)), case,
                                   f"{head}: trail {list(tr)} cannot be followed: {fe!r}")
                     continue
-                iv = leaf.input_value
+                iv = delazify(leaf.input_value, lazy_reg)
                 same = tspec.canon_eq(iv, reached) or (isinstance(iv, tuple) and isinstance(reached, list)
                                                       and tspec.canon_eq(list(iv), reached))
                 if not same:
